@@ -199,3 +199,46 @@ class VirtualParallel:
             res = [f(*a, **k) for f, a, k in copy]
             out.extend(pickle.loads(pickle.dumps(res)))
         return out
+
+
+class VirtualExecutor:
+    """Stand-in for ``concurrent.futures.ProcessPoolExecutor`` as SynCRN uses it (context manager + ``map``): every task
+    is run in this process on a pickled copy, results come back through pickle in submission order (what ``map``
+    guarantees); the number of workers has no influence on what a correct caller can observe."""
+
+    created = []
+
+    def __init__(self, max_workers=None, **kw):
+        self.max_workers = max_workers
+        VirtualExecutor.created.append(max_workers)
+
+    def __enter__(self):
+        return self
+
+    def __exit__(self, *a):
+        return False
+
+    def map(self, fn, *iterables, timeout=None, chunksize=1):
+        import pickle
+
+        def gen():
+            for args in zip(*iterables):
+                a = pickle.loads(pickle.dumps(args))
+                yield pickle.loads(pickle.dumps(fn(*a)))
+
+        return gen()
+
+    def submit(self, fn, *a, **k):
+        import pickle
+        from concurrent.futures import Future
+
+        f = Future()
+        try:
+            aa, kk = pickle.loads(pickle.dumps((a, k)))
+            f.set_result(pickle.loads(pickle.dumps(fn(*aa, **kk))))
+        except BaseException as e:  # noqa
+            f.set_exception(e)
+        return f
+
+    def shutdown(self, *a, **k):
+        pass
